@@ -25,10 +25,12 @@ def gen_cases(tier, seed):
     rng = gen.rng_for(seed, ID, tier)
     cs = itertools.count(1)
     nshapes = 10 if tier == "quick" else 80
-    for fam in ("exact", "noisy", "int32", "uint8", "float32"):
+    for fam in ("exact", "noisy", "int32", "uint8", "float32", "tucker-sparse"):
         for _ in range(nshapes if fam in ("exact", "noisy") else max(2, nshapes // 3)):
             N = int(rng.integers(2, 5))
             shape = [int(s) for s in rng.integers(2, 8 if N < 4 else 5, size=N)]
+            if fam == "tucker-sparse":
+                shape = [int(s) for s in rng.integers(4, 8 if N < 4 else 5, size=N)]
             dseed = int(rng.integers(0, 2 ** 31))
             for n in range(N):
                 for r in range(1, shape[n] + 1):
@@ -48,6 +50,25 @@ def _data(case):
     K = ttb.ktensor([f.copy() for f in fm], w.copy())
     A = denote(K)
     H = {}
+    if case["fam"] == "tucker-sparse":
+        # Tucker tensors with a (really) sparse core and (really) sparse factor matrices next to the same data held with dense parts
+        from scipy import sparse as sp
+
+        for _try in range(20):
+            csz = tuple(int(rng.integers(2, min(s, 4) + 1)) for s in shape)
+            cd = rng.standard_normal(csz) * (rng.random(csz) < 0.3)
+            U = [rng.standard_normal((s, c)) * (rng.random((s, c)) < 0.3) for s, c in zip(shape, csz)]
+            A = cd
+            for k_, Uk in enumerate(U):
+                A = np.moveaxis(np.tensordot(Uk, A, axes=(1, k_)), 0, k_)
+            if np.linalg.norm(A) > 0:
+                break
+        H["ttensor"] = ttb.ttensor(ttb.tensor(cd.copy()), [u.copy() for u in U])
+        H["ttensor(sparse core, sparse factors)"] = ttb.ttensor(gen.mk_sptensor(ttb, cd), [sp.coo_matrix(u) for u in U])
+        H["ttensor(sparse core)"] = ttb.ttensor(gen.mk_sptensor(ttb, cd), [u.copy() for u in U])
+        H["ttensor(sparse factors)"] = ttb.ttensor(ttb.tensor(cd.copy()), [sp.coo_matrix(u) for u in U])
+        H["tensor"] = ttb.tensor(A.copy())
+        return A, H
     if case["fam"] == "exact":
         H["ktensor"] = K
         core = np.zeros((R,) * len(shape))
@@ -94,7 +115,7 @@ def run_case(case, ctx):
     ref_sub = evec[:, :r]
     results = {}
     for name, X in H.items():
-        op = f"{name}.nvecs"
+        op = f"{name.split('(')[0]}.nvecs"
         rr = ctx.call(op, X.nvecs, n, r, **({} if fs else {"flipsign": False}))
         if not rr.ok:
             ctx.check(False, op, "RAISE:" + type(rr.exc).__name__, f"{type(rr.exc).__name__}: {rr.exc} | {rr.tb}", holder=name)
@@ -111,7 +132,16 @@ def run_case(case, ctx):
             continue
         ctx.check(np.linalg.norm(Vr.T @ Vr - np.eye(r)) <= 1e-8, op, "NOT-ORTHONORMAL", f"||V'V - I|| = {np.linalg.norm(Vr.T @ Vr - np.eye(r)):.3e}", holder=name)
         if not separated:
+            # outside the spectral domain of the property (leading eigenvalues not well separated).  The direct (dense-solver) path is still
+            # judged on what holds for any symmetric matrix: every column is an eigenvector and the Rayleigh quotients are the r largest
+            # eigenvalues in decreasing order (subspace comparisons need a gap and are skipped)
             ctx.tag("outside-spectral-domain")
+            if path == "dense" and top > 0:
+                rq = np.array([Vr[:, i] @ G @ Vr[:, i] for i in range(r)])
+                res = max(np.linalg.norm(G @ Vr[:, i] - rq[i] * Vr[:, i]) for i in range(r))
+                ctx.check(res <= 1e-7 * top, op, "NOT-EIGENVECTORS", f"max ||G v - (v'Gv) v|| = {res:.3e} (||G|| ~ {top:.3e})", holder=name)
+                ctx.check(bool(np.all(np.abs(rq - ev[:r]) <= 1e-7 * top)), op, "WRONG-EIGENVALUES",
+                          lambda: f"Rayleigh quotients {rq.tolist()} vs top-{r} eigenvalues {ev[:r].tolist()} (decreasing)", holder=name)
             continue
         rq = np.array([Vr[:, i] @ G @ Vr[:, i] for i in range(r)])
         res = max(np.linalg.norm(G @ Vr[:, i] - rq[i] * Vr[:, i]) for i in range(r))
